@@ -61,6 +61,10 @@ var situations = []string{
 	"listing-resumed-after-cookie-entry-detached", "listing-paginated-under-mutation",
 	"case-variant-collision", "case-variant-hit", "hard-link-created", "link-stale-leaf",
 	"createchildren-overwrite", "enter-replaces-leaf", "filterchildren-removed-something",
+	"rename-directory-across-file-systems", "rename-leaf-across-file-systems",
+	"link-of-foreign-leaf", "rename-into-foreign-directory-implementation",
+	"fuse-forget-partial", "fuse-forget-complete-then-lookup", "symlink-target-read-back",
+	"listing-page-ended-at-dot-entry", "fuse-setattr-on-directory",
 }
 
 func runDirectCase(r *ev.Run, cfgIdx int, base vfsh.Config, i int) {
@@ -71,7 +75,7 @@ func runDirectCase(r *ev.Run, cfgIdx int, base vfsh.Config, i int) {
 
 	env := vfsh.NewEnv(cfg)
 	x := vfsh.NewExec(env)
-	gen := &vfsh.Gen{M: x.M, R: rng, P: vfsh.Profile{MaxDirs: 8, MaxNames: 7}}
+	gen := &vfsh.Gen{M: x.M, R: rng, P: vfsh.Profile{MaxDirs: 8, MaxNames: 7, DirSetAttr: true}}
 	failed := false
 	x.Mismatch = func(rule string, op vfsh.Op, detail string) {
 		if failed {
@@ -161,7 +165,8 @@ func TestCheck(t *testing.T) {
 	}
 	r.Assume("gated scenarios: a call is taken to have backed off (dropped the parent's lock) when a goroutine dump shows it blocked on a mutex inside LockPile.Lock while a harness-owned InitialContentsFetcher holds the child's lock; the driver mutates only then")
 	gatedFloors := map[string]int{"readdir-backoff-entry-detached-meanwhile": 30, "readdir-backoff-entry-kept": 3, "readdir-backoff-in-a-resumed-listing": 10,
-		"backoff-entry-detached-meanwhile:lookup": 5, "backoff-entry-detached-meanwhile:remove": 5, "backoff-entry-detached-meanwhile:rename-onto": 5}
+		"backoff-entry-detached-meanwhile:lookup": 5, "backoff-entry-detached-meanwhile:remove": 5, "backoff-entry-detached-meanwhile:rename-onto": 5,
+		"backoff-entry-kept:lookup": 2, "backoff-entry-kept:remove": 2, "backoff-entry-kept:rename-onto": 2}
 	for s, n := range gatedFloors {
 		r.Floor(s, n)
 	}
@@ -205,7 +210,7 @@ func TestCheck(t *testing.T) {
 			jobs = append(jobs, job{"direct", c, i})
 		}
 	}
-	nGated := r.Pick(60, 1200)
+	nGated := r.Pick(80, 1200)
 	for c := range cfgs {
 		for i := 0; i < nGated; i++ {
 			jobs = append(jobs, job{"gated", c, i})
